@@ -66,6 +66,9 @@ func (C20) Gen(rt *rapid.T, tier string) any {
 			case 1, 2, 3:
 				f.Body = rapid.IntRange(1, 9).Draw(rt, l+".body")
 			}
+			if rapid.IntRange(0, 5).Draw(rt, l+".pretag") == 5 {
+				f.PreTag = rapid.SampledFrom([]string{"stale", "d0", "d1"}).Draw(rt, l+".pretag.name")
+			}
 			d.Findings = append(d.Findings, f)
 		}
 		dets = append(dets, d)
